@@ -81,6 +81,9 @@ def quick_deviations():
     out.append(mk("lsn", True, wall="W2", tags=["wall"]))
     out.append(mk("cdn", False, wall="W2", tags=["wall"]))
     out.append(mk("usn", False, wall="W6m", tags=["wall"]))
+    # slanted targets without boundary guard cells (contours must be extended to reach the wall)
+    out.append(mk("lsn", False, wall="W6", opt=dict(y_boundary_guards=0), tags=["wall", "guards"]))
+    out.append(mk("cdn", False, wall="W2", opt=dict(y_boundary_guards=0), tags=["wall", "guards"]))
     # anticlockwise wall input
     out.append(mk("lsn", True, wall="W1", tags=["wall"]))
     # sign/scale options
